@@ -5,12 +5,12 @@ CONSTANTS
   ReadSizes = {}
   EscapeAware = TRUE
   AposStrings = FALSE
-  Fams = {"A0", "A1", "A2", "A3", "B0", "B1", "B2", "B3", "B4", "C", "D", "E", "L"}
+  Fams = {"A0", "A1", "A2", "A3", "B0", "B1", "B2", "B3", "B4", "C0", "C1", "C2", "D", "E", "L"}
   StrAtoms = {"o", "s", "t", "a", "Q", "B", "S", "O"}
   StrK = 4
   ComClasses = {"q", "b", "s", "t", "a", "n", "p", "o"}
   ComK = 4
-  BigFams = {"str70k", "str60k", "nums100k", "strs100k"}
+  BigFams = {"str70k", "str40k", "nums100k", "strs100k"}
   WalkMaxBody = 0
   WalkMaxCom = 0
   WalkMaxItems = 0
